@@ -729,6 +729,62 @@ func c11stress(args []string) int {
 		rep.Calls["burst searches"] = nBurst.Load()
 		rep.Calls["burst groups"] = int64(len(groups))
 	}
+	// ---------------- a sweep over hundreds of expired entries racing with Clear (what InvalidateCache does): a sweep that lets go of the
+	// lock part-way must not go on with what it remembered; afterwards the cache must behave like a consistent LRU
+	{
+		trials := 40
+		if thorough {
+			trials = 300
+		}
+		for trial := 0; trial < trials && len(rep.LruFails) < 3; trial++ {
+			lc := cache.NewLRUCache(1000, time.Hour)
+			for i := 0; i < 400; i++ {
+				lc.Put("old"+Itoa(i), i)
+			}
+			lc.VerifAge(2 * time.Hour)
+			start := make(chan struct{})
+			var sw sync.WaitGroup
+			sw.Add(2)
+			go func() { defer sw.Done(); defer notePanic("sweeper"); <-start; lc.CleanupExpired() }()
+			go func() {
+				defer sw.Done()
+				defer notePanic("clearer")
+				<-start
+				if trial%2 == 1 {
+					runtime.Gosched()
+				}
+				lc.Clear()
+			}()
+			close(start)
+			sw.Wait()
+			c11Progress.Add(1)
+			func() {
+				defer notePanic("after sweep-vs-clear")
+				if sz, nk := lc.Size(), len(lc.Keys()); sz != nk || sz < 0 || sz > 400 {
+					mu.Lock()
+					rep.LruFails = append(rep.LruFails, fmt.Sprintf("after a sweep of 400 expired entries raced with Clear: Size()=%d, %d keys", sz, nk))
+					mu.Unlock()
+					return
+				}
+				for i := 0; i < 1100; i++ {
+					lc.Put("new"+Itoa(i), i)
+				}
+				st := lc.Stats()
+				if st.Size > st.Capacity || lc.Size() > 1000 || st.Evictions < 100 {
+					mu.Lock()
+					rep.LruFails = append(rep.LruFails, fmt.Sprintf("after a sweep raced with Clear, 1100 puts into a cache of 1000: %+v (the bound / eviction no longer work)", st))
+					mu.Unlock()
+					return
+				}
+				if v, ok := lc.Get("new1099"); !ok || v.(int) != 1099 {
+					mu.Lock()
+					rep.LruFails = append(rep.LruFails, "after a sweep raced with Clear: the entry stored last is not returned")
+					mu.Unlock()
+				}
+			}()
+		}
+		rep.Calls["sweep-vs-clear trials"] = int64(trials)
+	}
 	rep.Calls["SearchUniversal"] = nDirect.Load()
 	rep.Calls["SearchWithOptionsAndCache"] = nCached.Load()
 	rep.Calls["SearchWithOptionsAndMonitoring"] = nMon.Load()
